@@ -80,6 +80,12 @@ def run_cross_js(node, res, texts, patterns, where, tag):
                 res.violation('js-like-mismatch' + ('-where' if where else ''), 'JS like(%r, %r) -> %r, reference %r (%s)' % (t, p, g, exp, tag), {'engine': 'js', 'pairs': [[t, p]], 'where': where})
 
 
+def utf16_units(s):
+    """The string as JavaScript sees it: one (possibly lone-surrogate) character per UTF-16 code unit."""
+    b = s.encode('utf-16-le', 'surrogatepass')
+    return ''.join(chr(b[i] | (b[i + 1] << 8)) for i in range(0, len(b), 2))
+
+
 def rand_char(rng, bmp_only):
     while True:
         r = rng.random()
@@ -208,7 +214,9 @@ def run_shard(spec, res):
         node = bridge.Node.start()
         if node is not None:
             try:
-                bpairs = [random_pair(rng, True) for _ in range(spec['n'] // 2)]
+                # half BMP-only, half with characters outside the BMP: a JavaScript "character" is a UTF-16 code unit, so the reference is
+                # evaluated on the code-unit sequences there (an astral character in the pattern stands for its two units, `_` for one unit)
+                bpairs = [random_pair(rng, i % 2 == 0) for i in range(spec['n'] // 2)]
                 r = node.call({'op': 'like_batch', 'pairs': bpairs})
                 res.count('js_queries')
                 if r['error'] is not None:
@@ -216,7 +224,9 @@ def run_shard(spec, res):
                 else:
                     for (t, p), row in zip(bpairs, r['out']):
                         res.evaluations += 1
-                        exp = refcsv.like(t, p)
+                        exp = refcsv.like(utf16_units(t), utf16_units(p))
+                        if max(map(ord, t + p), default=0) > 0xffff:
+                            res.count('js_pairs_with_astral_characters')
                         if row[0] is not exp:
                             res.violation('js-like-mismatch', 'JS like(%r, %r) -> %r, reference %r (random)' % (t, p, row[0], exp), {'engine': 'js', 'pairs': [[t, p]], 'where': False})
                     res.count('js_random_pairs', len(bpairs))
@@ -243,7 +253,7 @@ def run_shard(spec, res):
 
 def summarize(tier, seed, m):
     return {
-        'rule': 'exhaustive: all patterns of length <= %d x all single-line texts of length <= %d over the 14-symbol alphabet %s through `select like(a1, a2)` (every 5th batch through `where like(a1, a2)`) on the Python engine; patterns <= %d x texts <= %d on the JS engine via node; %d random longer Unicode pairs (pattern derived from the text, then perturbed; BMP only for JS)%s. distinct_nontrivial counts pairs whose pattern contains a wildcard or a regular-expression metacharacter (exhaustive legs, disjoint by construction) plus distinct random pairs.' % (
+        'rule': 'exhaustive: all patterns of length <= %d x all single-line texts of length <= %d over the 14-symbol alphabet %s through `select like(a1, a2)` (every 5th batch through `where like(a1, a2)`) on the Python engine; patterns <= %d x texts <= %d on the JS engine via node; %d random longer Unicode pairs (pattern derived from the text, then perturbed; for JS half of them with characters outside the BMP, judged on UTF-16 code units)%s. distinct_nontrivial counts pairs whose pattern contains a wildcard or a regular-expression metacharacter (exhaustive legs, disjoint by construction) plus distinct random pairs.' % (
             PAT_LEN[tier], TXT_LEN[tier], ''.join(ALPHABET), JS_PAT_LEN[tier], JS_TXT_LEN[tier], RANDOM_PAIRS[tier],
             '; every length-5 pattern containing a wildcard (and 1/7 of the others) against texts derived from it (wildcard instantiations and their single-symbol edits)' if tier == 'thorough' else ''),
         'exhaustive': True,
